@@ -118,6 +118,9 @@ def judge(run, kind, parse, text, sources_hint=None):
             run.violation("Ok result does not carry a schema: %r" % (type(tree).__name__,), case)
             return
         run.case(sig="%s|ok" % kind)
+        if kind == "valid" and len(text) < 500 and run.counters.get("sampled_ok", 0) < 1:
+            run.count("sampled_ok")
+            run.sample({"class": kind, "input": text, "outcome": "Ok(schema)"})
         return "ok"
     run.count("outcome_err")
     err = res.err()
@@ -146,6 +149,10 @@ def judge(run, kind, parse, text, sources_hint=None):
             run.violation("diagnostic cites %s:%d but the source has %d lines" % (fname, line, nlines), case)
             return
     run.case(sig="%s|err|%s" % (kind, norm(repr(err))))
+    key = "sampled_" + kind.split("-")[0]
+    if len(text) < 300 and run.counters.get(key, 0) < 1 and kind != "valid":
+        run.count(key)
+        run.sample({"class": kind, "input": text, "outcome": "Err", "error": repr(err)[:200], "diagnostic_cites": re.findall(r"\[([^\[\]:\s]+\.fcp:-?\d+)\]", rendered)})
     return "err"
 
 
